@@ -25,7 +25,9 @@ Inductive pc :=
  | AcqCreate | AcqWrite                        (* try_acquire: create_new(lock) ; write record *)
  | MetaTmp | MetaRemove | MetaRename           (* write_meta: write meta.tmp ; remove meta ; rename tmp->meta *)
  | DropMeta | DropLock                         (* Drop: remove meta ; remove lock *)
- | RdMeta | RdLock | LockExists | Live (p : pid) | Ping (p : pid)   (* reads done by the recovery loops; Ping p = GET <endpoint of meta pid p>/openapi.json *)
+ | RdMeta | RdLock | LockExists | Live (p : pid) | Ping (p : pid)
+ | LiveM (p : pid) | LockExistsM (p : pid)   (* client, meta.json branch: liveness of the meta pid ; lock.json exists? (else: spawn) *)
+   (* reads done by the recovery loops; Ping p = GET <endpoint of meta pid p>/openapi.json *)
  | StExists (d : pid) | StReread (d : pid) | StRename (d : pid) | StRdMeta (d : pid) | StMetaRename (d : pid)
  | CoExists | CoMetaExists | CoRdMeta | CoLive (p : pid) | CoRename   (* corrupt cleanup: exists? ; meta exists? ; [read meta ; liveness of its pid] ; rename *)
  | Serving                                     (* holds the guard, serves; a step = shutdown begins *)
@@ -35,7 +37,8 @@ Inductive pc :=
 Inductive res :=
  | RAcq (ok : bool) | RMetaW (ok : bool) | RDrop
  | RStale (cleaned : bool) | RCorrupt (cleaned : bool)
- | RLock (l : lockf) | RMeta (m : metaf) | RExists (b : bool) | RLive (p : pid) (alive : bool) | RPing (p : pid) (b : bool).
+ | RLock (l : lockf) | RMeta (m : metaf) | RExists (b : bool) | RLive (p : pid) (alive : bool) | RPing (p : pid) (b : bool)
+ | RLiveM (p : pid) (alive : bool) | RExistsM (p : pid) (b : bool).
 
 Inductive driver :=
  | DScript (cs : list call)   (* a fixed sequence of public calls (correspondence only) *)
@@ -94,7 +97,7 @@ Definition res_code (r : res) : N :=
   | RAcq b => b2n b | RMetaW b => b2n b | RDrop => 1
   | RStale b => b2n b | RCorrupt b => b2n b
   | RLock l => lock_code l | RMeta m => meta_code m | RExists b => b2n b
-  | RLive _ b => b2n b | RPing _ b => b2n b
+  | RLive _ b => b2n b | RPing _ b => b2n b | RLiveM _ b => b2n b | RExistsM _ b => b2n b
   end.
 Definition pc_code (c : pc) : N :=
   match c with
@@ -102,6 +105,7 @@ Definition pc_code (c : pc) : N :=
   | DropMeta => 6 | DropLock => 7 | RdMeta => 8 | RdLock => 9 | LockExists => 10 | Live _ => 11 | Ping _ => 12
   | StExists _ => 13 | StReread _ => 14 | StRename _ => 15 | StRdMeta _ => 16 | StMetaRename _ => 17
   | CoExists => 18 | CoMetaExists => 19 | CoRename => 20 | Serving => 21 | CoRdMeta => 22 | CoLive _ => 23
+  | LiveM _ => 24 | LockExistsM _ => 25
   end.
 
 (* first operation of a call; calls that need the guard are skipped (None) without it *)
@@ -155,6 +159,8 @@ Definition server_next (ag : bool) (ps : list proc) (o : N) (r : res) : pc :=
   | RMetaW false => DropMeta                               (* panic!: the guard is dropped while unwinding *)
   | RDrop => Done
   | RExists _ => Done
+  | RLiveM _ _ => Done
+  | RExistsM _ _ => Done
   end.
 
 (* rip-cli/src/local_authority.rs:34-198 *)
@@ -164,7 +170,11 @@ Definition client_next (ag : bool) (ps : list proc) (o : N) (r : res) : pc :=
   | RMeta (MRec p) => Ping p
   | RMeta MAbsent => LockExists
   | RPing _ true => Done                                   (* Ok(endpoint) *)
-  | RPing p false => Live p
+  | RPing p false => LiveM p
+  | RLiveM p false => LockExistsM p                        (* fix S24: no lock.json next to a dead meta.json: spawn *)
+  | RLiveM _ true => again
+  | RExistsM p true => StExists p
+  | RExistsM _ false => again                              (* spawn_local_authority, continue *)
   | RExists true => RdLock
   | RExists false => again                                 (* spawn_local_authority: another process, see DServer *)
   | RLock (LRec p) => Live p
@@ -231,6 +241,8 @@ Definition micro (ag : bool) (s : state) (o : N) (q : proc) : state * proc :=
   | LockExists => (s, R (p_guard q) (RExists (match l with LAbsent => false | _ => true end)))
   | Live p => (s, R (p_guard q) (RLive p (pid_alive ps p)))
   | Ping p => (s, R (p_guard q) (RPing p (o_reach o)))
+  | LiveM p => (s, R (p_guard q) (RLiveM p (pid_alive ps p)))
+  | LockExistsM p => (s, R (p_guard q) (RExistsM p (match l with LAbsent => false | _ => true end)))
   | StExists d =>
       match l with
       | LAbsent => (s, R (p_guard q) (RStale false))
